@@ -32,7 +32,7 @@ Lemma assemble_any st keys (ps : list (list N * list N)) :
   assemble keys ps = map (srv_get st) keys.
 Proof.
   intros I1 I2. unfold assemble. apply map_ext_in. intros k Hk.
-  apply find_last_partial; [exact I2|]. intros v Hv. apply I1; assumption.
+  apply find_last_pfun; [exact I2|]. intros v Hv. apply I1; assumption.
 Qed.
 
 Theorem batch_get_aligned st sched keys res :
@@ -124,7 +124,7 @@ Qed.
 
 (* any call, complete or not: a key either keeps its entry or carries ITS last value of this call;
    keys outside the request are never touched *)
-Lemma bput_rounds_partial kvs : forall sched st keys st' ok,
+Lemma bput_rounds_partial_failure kvs : forall sched st keys st' ok,
   bput_rounds st sched kvs keys = Some (st', ok) ->
   forall k, st_get st' k = st_get st k \/
             (In k keys /\ exists e, find_last kvs k = Some e /\ st_get st' k = Some e).
@@ -187,7 +187,7 @@ Proof.
   rewrite E. apply sorted_ext; [apply sorted_batch_put; exact Hs|apply sorted_batch_put; exact Hs|].
   intros k. rewrite !st_get_batch_put.
   replace (find_last (concat bs) k) with (find_last kvs k); [reflexivity|]. symmetry.
-  apply find_last_partial.
+  apply find_last_pfun.
   - intros k' v Hp. exact (Hc (k', v) Hp).
   - intros v Hv. assert (Hk : In k (map fst kvs)).
     { apply find_last_In in Hv. change k with (fst (k, v)). apply in_map; exact Hv. }
@@ -228,7 +228,7 @@ Proof.
       rewrite (not_in_existsb (served_keys ch r keys) k) by (intros H; apply Hn, P; left; exact H).
       reflexivity.
 Qed.
-Lemma bdel_rounds_partial : forall sched st keys st' ok,
+Lemma bdel_rounds_partial_failure : forall sched st keys st' ok,
   bdel_rounds st sched keys = Some (st', ok) ->
   forall k, st_get st' k = st_get st k \/ (In k keys /\ st_get st' k = None).
 Proof.
